@@ -21,11 +21,16 @@ def _mk(trajs, lags, tmax, micro=None, positive=False, src='rand', bad=None):
 
 def cases(tier, rng, boost=1):
     yield _mk([[1, 1, 2, 1, 2, 2, 1, 2, 1, 1, 2, 2, 2, 1, 1]], [4, 1, 2], 6, src='corpus')        # unsorted lag list
+    yield _mk([[0, 2, 1, 0, 2, 1, 1, 1, 1, 1, 0, 2, 2, 2, 2, 1]], [3], 15, src='corpus')            # T(3) not diagonalisable (eigenvalues 1, 1/6, 1/6)
     n = {'quick': 120, 'thorough': 1500, 'search': 400}[tier] * boost
     for _ in range(n):
         ns = rng.randint(2, 5)
         labs, _ = gen.alphabet(rng, ns)
         idx = [sample_chain(rng, ns, rng.choice([30, 60, 120])) for _ in range(rng.randint(1, 3))]
+        if rng.random() < 0.4:
+            ns = 3
+            labs = [0, 1, 2]
+            idx = [gen.random_traj(rng, 3, rng.randint(12, 20), 0.4)]      # short data: repeated / defective eigenvalues occur
         trajs = gen.relabel(idx, labs)
         nl = rng.randint(1, 3)
         lags = rng.sample(range(1, 7), nl)
